@@ -88,8 +88,8 @@ namespace mustache {
         WorldId id_;
         WorldContext context_;
         std::unique_ptr<SystemManager> systems_;
+        WorldVersion version_ = WorldVersion::make(0u); // before entities_: its constructor reads version()
         EntityManager entities_;
         WorldStorage world_storage_;
-        WorldVersion version_ = WorldVersion::make(0u);
     };
 }
